@@ -18,6 +18,7 @@ package gtab
 
 import (
 	"sort"
+	"strings"
 
 	"golang.org/x/text/language"
 	"seehuhn.de/go/sfnt/parser"
@@ -582,6 +583,17 @@ func (info *Info) FindLookups(lang language.Tag, includeFeature map[string]bool)
 	}
 	// TODO(voss): make sure a sensible default comes first.
 	//     Maybe this could be based on the number of features supported?
+
+	// The first tag is the matcher's fallback.  Map iteration order is
+	// random, so fix the order: the default script first, then alphabetical.
+	sort.Slice(tags, func(i, j int) bool {
+		si, sj := tags[i].String(), tags[j].String()
+		di, dj := strings.HasPrefix(si, "und-Zzzz"), strings.HasPrefix(sj, "und-Zzzz")
+		if di != dj {
+			return di
+		}
+		return si < sj
+	})
 
 	matcher := language.NewMatcher(tags)
 	_, index, _ := matcher.Match(lang)
